@@ -47,6 +47,25 @@ def weekday(z):
     return (z + 3) % 7
 
 
+import contextlib
+
+
+@contextlib.contextmanager
+def local_timezone(tz):
+    """run a piece of code with the process in another local time zone (the UTC calendar must not depend on it)"""
+    old = os.environ.get("TZ")
+    os.environ["TZ"] = tz
+    time.tzset()
+    try:
+        yield
+    finally:
+        if old is None:
+            os.environ.pop("TZ", None)
+        else:
+            os.environ["TZ"] = old
+        time.tzset()
+
+
 BUCKET_SPEC = {
     "Year": lambda z, sod, y, m, d: 86400 * days_from_civil(y, 1, 1),
     "Month": lambda z, sod, y, m, d: 86400 * days_from_civil(y, m, 1),
@@ -92,6 +111,17 @@ def _enumerated(name, props, bound, body, functions):
 
 def _bucket(axis_name):
     def body():
+        tot = 0
+        for tz in ("UTC", "PST8"):
+            with local_timezone(tz):
+                cases, bad = body_tz()
+            tot += cases
+            if bad is not None:
+                bad["local-time-zone-of-the-process"] = tz
+                return tot, bad
+        return tot, None
+
+    def body_tz():
         ax = getattr(verif.axis, axis_name)()
         z0, z1 = days_from_civil(1970, 1, 1), days_from_civil(2100, 12, 31)
         spec = BUCKET_SPEC[axis_name]
@@ -120,17 +150,28 @@ def _bucket(axis_name):
 
 for _ax in sorted(BUCKET_SPEC):
     _enumerated("verif.axis.%s.compute_from_times#BOUNDED:calendar-bucket" % _ax, ("C11",),
-                "every day 1970-01-01..2100-12-31 (exhaustive) x seconds of day {0, 1, 1800, 43200, 86399}, against an independent civil calendar",
+                "every day 1970-01-01..2100-12-31 (exhaustive) x seconds of day {0, 1, 1800, 43200, 86399}, against an independent civil calendar, with the process in UTC and in PST8",
                 _bucket(_ax), ["verif.axis.%s.compute_from_times" % _ax])
 
 
 def _conversions():
     def body():
+        tot = 0
+        for tz in ("UTC", "PST8"):
+            with local_timezone(tz):
+                cases, bad = body_tz(1 if tz == "UTC" else 7)
+            tot += cases
+            if bad is not None:
+                bad["local-time-zone-of-the-process"] = tz
+                return tot, bad
+        return tot, None
+
+    def body_tz(stride):
         z0, z1 = days_from_civil(1900, 1, 1), days_from_civil(2100, 12, 31)
         cases = 0
         import matplotlib.dates
         epoch = matplotlib.dates.date2num(datetime.datetime(1970, 1, 1))
-        for z in range(z0, z1 + 1):
+        for z in range(z0, z1 + 1, stride):
             y, m, d = civil_from_days(z)
             date = y * 10000 + m * 100 + d
             ut = z * 86400
@@ -159,7 +200,7 @@ def _conversions():
 
 
 _enumerated("verif.util.date-conversions#BOUNDED:mutually-inverse-for-every-day-1900-2100", ("C11", "C13"),
-            "every calendar day 1900-01-01..2100-12-31: the complete domain named by the property (exhaustive)",
+            "every calendar day 1900-01-01..2100-12-31: the complete domain named by the property (exhaustive) with the process in UTC, and every 7th day again in PST8",
             _conversions(), ["verif.util.date_to_unixtime", "verif.util.unixtime_to_date", "verif.util.date_to_datenum",
                              "verif.util.unixtime_to_datenum", "verif.util.datenum_to_date", "verif.util.get_date"])
 
